@@ -1,3 +1,511 @@
-//! C20 — C API.
+//! C20 — the C API returns exactly the framework's actions and never writes past num_machines.
+//! The `extern "C"` functions are called through the crate's rlib and compared, batch by batch and
+//! field by field, with a Rust `Framework` on the same deterministic machines. The same routine is
+//! the workload under Miri and AddressSanitizer (`vh c20-miri` / `vh c20-san`).
 
-pub fn sanitizer_main(_mode: &str, _seed: u64, _cases: u64, _shard: u64) {}
+use std::ffi::CString;
+use std::mem::MaybeUninit;
+use std::str::FromStr;
+use std::time::{Duration, Instant};
+
+use maybenot::event::TriggerEvent;
+use maybenot::{Framework, Machine, MachineId, Timer, TriggerAction};
+use maybenot_ffi::{
+    maybenot_num_machines, maybenot_on_events, maybenot_start, maybenot_stop, MaybenotAction, MaybenotDuration, MaybenotEvent, MaybenotEventType,
+    MaybenotFramework, MaybenotTimer,
+};
+use rand_core::RngCore;
+use serde_json::{json, Value};
+
+use crate::alloc_track;
+use crate::gen::{gen_machine, MCfg};
+use crate::util::{hash_of, xo, Pick, ScriptRng, Xo};
+use crate::{CaseCx, Out, Prop, Tier};
+
+#[derive(Default)]
+pub struct C20 {}
+
+pub fn det_machine(r: &mut Xo) -> Machine {
+    let mut c = MCfg::det();
+    c.allow_signal = r.chance(1, 2);
+    c.action16 = 13;
+    c.limit16 = 6;
+    c.density16 = *r.pick(&[5, 8, 12]);
+    c.allow_end = r.chance(1, 4);
+    c.max_states = 4;
+    let mut m = gen_machine(r, &c);
+    // real time must not matter: no blocking fractions, blocking budget none or unlimited
+    m.max_blocking_frac = 0.0;
+    m.allowed_blocked_microsec = *r.pick(&[0, u64::MAX]);
+    m.allowed_padding_packets = *r.pick(&[0, 1, 5, u64::MAX]);
+    m.max_padding_frac = *r.pick(&[0.0, 0.5, 1.0]);
+    m
+}
+
+fn ev_type(e: &TriggerEvent) -> (MaybenotEventType, usize) {
+    match e {
+        TriggerEvent::NormalRecv => (MaybenotEventType::NormalRecv, 0),
+        TriggerEvent::PaddingRecv => (MaybenotEventType::PaddingRecv, 0),
+        TriggerEvent::TunnelRecv => (MaybenotEventType::TunnelRecv, 0),
+        TriggerEvent::NormalSent => (MaybenotEventType::NormalSent, 0),
+        TriggerEvent::PaddingSent { machine } => (MaybenotEventType::PaddingSent, machine.into_raw()),
+        TriggerEvent::TunnelSent => (MaybenotEventType::TunnelSent, 0),
+        TriggerEvent::BlockingBegin { machine } => (MaybenotEventType::BlockingBegin, machine.into_raw()),
+        TriggerEvent::BlockingEnd => (MaybenotEventType::BlockingEnd, 0),
+        TriggerEvent::TimerBegin { machine } => (MaybenotEventType::TimerBegin, machine.into_raw()),
+        TriggerEvent::TimerEnd { machine } => (MaybenotEventType::TimerEnd, machine.into_raw()),
+    }
+}
+
+/// (kind, machine, bypass, replace, timer, timeout secs, timeout nanos, duration secs, duration nanos)
+pub type Flat = (u32, usize, bool, bool, u32, u64, u32, u64, u32);
+
+fn flat_rust(a: &TriggerAction) -> Flat {
+    let d = |x: &Duration| (x.as_secs(), x.subsec_nanos());
+    match a {
+        TriggerAction::Cancel { machine, timer } => (
+            0,
+            machine.into_raw(),
+            false,
+            false,
+            match timer {
+                Timer::Action => 0,
+                Timer::Internal => 1,
+                Timer::All => 2,
+            },
+            0,
+            0,
+            0,
+            0,
+        ),
+        TriggerAction::SendPadding { timeout, bypass, replace, machine } => (1, machine.into_raw(), *bypass, *replace, 0, d(timeout).0, d(timeout).1, 0, 0),
+        TriggerAction::BlockOutgoing { timeout, duration, bypass, replace, machine } => {
+            (2, machine.into_raw(), *bypass, *replace, 0, d(timeout).0, d(timeout).1, d(duration).0, d(duration).1)
+        }
+        TriggerAction::UpdateTimer { duration, replace, machine } => (3, machine.into_raw(), false, *replace, 0, 0, 0, d(duration).0, d(duration).1),
+    }
+}
+
+fn flat_c(a: &MaybenotAction) -> Flat {
+    let d = |x: &MaybenotDuration| (x.secs, x.nanos);
+    match a {
+        MaybenotAction::Cancel { machine, timer } => (
+            0,
+            *machine,
+            false,
+            false,
+            match timer {
+                MaybenotTimer::Action => 0,
+                MaybenotTimer::Internal => 1,
+                MaybenotTimer::All => 2,
+            },
+            0,
+            0,
+            0,
+            0,
+        ),
+        MaybenotAction::SendPadding { machine, timeout, replace, bypass } => (1, *machine, *bypass, *replace, 0, d(timeout).0, d(timeout).1, 0, 0),
+        MaybenotAction::BlockOutgoing { machine, timeout, replace, bypass, duration } => (2, *machine, *bypass, *replace, 0, d(timeout).0, d(timeout).1, d(duration).0, d(duration).1),
+        MaybenotAction::UpdateTimer { machine, duration, replace } => (3, *machine, false, *replace, 0, 0, 0, d(duration).0, d(duration).1),
+    }
+}
+
+pub struct Session {
+    pub machines: Vec<Machine>,
+    pub strings: String,
+    pub pf: f64,
+    pub batches: Vec<Vec<TriggerEvent>>,
+}
+
+pub fn gen_session(r: &mut Xo, max_batches: usize) -> Session {
+    let n = r.range(0, 4) as usize;
+    let machines: Vec<Machine> = (0..n).map(|_| det_machine(r)).collect();
+    let strings = machines.iter().map(|m| m.serialize()).collect::<Vec<_>>().join("\n");
+    let nb = r.range(1, max_batches as u64) as usize;
+    let mut eg = crate::drive::EvGen::default();
+    let h = crate::gen::HCfg { calls: nb, max_batch: 6, empty: true, backwards: false, huge_steps: false, unknown_ids: true };
+    // completions are not adaptive here (the script is fixed up front so that the C client can replay it)
+    let batches = (0..nb)
+        .map(|_| {
+            let mut b = eg.next_batch(r, n, &h);
+            for e in b.iter_mut() {
+                if r.chance(1, 3) {
+                    let m = MachineId::from_raw(if n > 0 && r.chance(5, 6) { r.below(n as u64) as usize } else { *r.pick(&[n, n + 1, usize::MAX]) });
+                    *e = match r.below(3) {
+                        0 => TriggerEvent::PaddingSent { machine: m },
+                        1 => TriggerEvent::BlockingBegin { machine: m },
+                        _ => TriggerEvent::TimerBegin { machine: m },
+                    };
+                }
+            }
+            b
+        })
+        .collect();
+    Session { machines, strings, pf: *r.pick(&[0.0, 0.0, 0.5, 1.0]), batches }
+}
+
+#[derive(Default)]
+pub struct FfiStats {
+    pub batches: u64,
+    pub actions: u64,
+    pub kinds: [u64; 4],
+    pub flag_combos: std::collections::BTreeSet<(u32, bool, bool, u32)>,
+    pub unknown_id_batches: u64,
+    pub error_codes: [u64; 5],
+}
+
+const GUARD: u8 = 0xA5;
+
+/// Runs one session through the C API and a Rust framework in lock-step.
+pub fn differential(s: &Session, st: &mut FfiStats) -> Result<(), (String, String)> {
+    let n = s.machines.len();
+    let cstr = CString::new(s.strings.clone()).unwrap();
+    let mut out: MaybeUninit<*mut MaybenotFramework> = MaybeUninit::uninit();
+    let rc = unsafe { maybenot_start(cstr.as_ptr(), s.pf, 0.0, &mut out) } as u32;
+    let reference = Framework::new(s.machines.clone(), s.pf, 0.0, Instant::now(), ScriptRng::fair(7));
+    st.error_codes[rc.min(4) as usize] += 1;
+    if (rc == 0) != reference.is_ok() {
+        return Err(("C20/start-judgement-differs".into(), format!("maybenot_start returned {rc}, the Rust API {}", if reference.is_ok() { "accepts" } else { "rejects" })));
+    }
+    if rc != 0 {
+        return Ok(());
+    }
+    let mut reference = reference.unwrap();
+    let this = unsafe { out.assume_init() };
+    let result = (|| {
+        let nm = unsafe { maybenot_num_machines(this) };
+        if nm != n {
+            return Err(("C20/num-machines".into(), format!("maybenot_num_machines = {nm}, {n} machines were given")));
+        }
+        // output buffer with guard slots on both sides
+        let slot = std::mem::size_of::<MaybenotAction>();
+        let mut buf: Vec<MaybeUninit<MaybenotAction>> = Vec::with_capacity(n + 4);
+        unsafe {
+            buf.set_len(n + 4);
+        }
+        for b in s.batches.iter() {
+            unsafe {
+                std::ptr::write_bytes(buf.as_mut_ptr() as *mut u8, GUARD, (n + 4) * slot);
+            }
+            let events: Vec<MaybenotEvent> = b
+                .iter()
+                .map(|e| {
+                    let (t, m) = ev_type(e);
+                    MaybenotEvent { event_type: t, machine: m }
+                })
+                .collect();
+            if b.iter().any(|e| ev_type(e).1 >= n && matches!(e, TriggerEvent::PaddingSent { .. } | TriggerEvent::BlockingBegin { .. } | TriggerEvent::TimerBegin { .. } | TriggerEvent::TimerEnd { .. })) {
+                st.unknown_id_batches += 1;
+            }
+            let mut count: usize = usize::MAX;
+            let rc = unsafe { maybenot_on_events(this, events.as_ptr(), events.len(), buf.as_mut_ptr().add(2), &mut count) } as u32;
+            if rc != 0 {
+                return Err(("C20/on-events-error".into(), format!("maybenot_on_events returned {rc} for valid arguments")));
+            }
+            let want: Vec<Flat> = reference.trigger_events(b, Instant::now()).map(flat_rust).collect();
+            if count > n {
+                return Err(("C20/count-exceeds-num-machines".into(), format!("{count} actions reported for {n} machines")));
+            }
+            // guards: two slots before, everything from slot `count` on untouched is not required, but
+            // nothing beyond num_machines slots may be written
+            let bytes = unsafe { std::slice::from_raw_parts(buf.as_ptr() as *const u8, (n + 4) * slot) };
+            if bytes[..2 * slot].iter().any(|x| *x != GUARD) || bytes[(2 + n) * slot..].iter().any(|x| *x != GUARD) {
+                return Err(("C20/write-outside-output-buffer".into(), format!("guard bytes around the {n}-slot output buffer were overwritten")));
+            }
+            if count != want.len() {
+                return Err(("C20/count-differs".into(), format!("{count} actions written, the framework returns {}", want.len())));
+            }
+            for i in 0..count {
+                let got = flat_c(unsafe { &*buf[2 + i].as_ptr() });
+                if got != want[i] {
+                    return Err((
+                        "C20/action-differs".into(),
+                        format!("action #{i}: C API wrote (kind, machine, bypass, replace, timer, timeout s/ns, duration s/ns) {got:?}, the framework returns {:?}", want[i]),
+                    ));
+                }
+                st.actions += 1;
+                st.kinds[got.0 as usize] += 1;
+                st.flag_combos.insert((got.0, got.2, got.3, got.4));
+            }
+            st.batches += 1;
+        }
+        Ok(())
+    })();
+    unsafe { maybenot_stop(this) };
+    result
+}
+
+/// Allocation balance of start / on_events / stop and of a failed start, measured with the counting
+/// allocator: every harness-side buffer is allocated before the first measurement and dropped after
+/// the last one.
+pub fn leak_probe(s: &Session) -> Result<(), (String, String)> {
+    let n = s.machines.len();
+    let good = CString::new(s.strings.clone()).unwrap();
+    let bad = CString::new(format!("{}\n02notamachine", s.strings)).unwrap();
+    let batches: Vec<Vec<MaybenotEvent>> = s
+        .batches
+        .iter()
+        .map(|b| {
+            b.iter()
+                .map(|e| {
+                    let (t, m) = ev_type(e);
+                    MaybenotEvent { event_type: t, machine: m }
+                })
+                .collect()
+        })
+        .collect();
+    let mut buf: Vec<MaybeUninit<MaybenotAction>> = (0..n.max(1)).map(|_| MaybeUninit::uninit()).collect();
+    let mut out: MaybeUninit<*mut MaybenotFramework> = MaybeUninit::uninit();
+    let mut count = 0usize;
+    // warm-up: one-time initialisation inside the OS random source etc. is not a leak of start/stop
+    unsafe {
+        if maybenot_start(good.as_ptr(), 0.0, 0.0, &mut out) as u32 == 0 {
+            maybenot_stop(out.assume_init());
+        }
+    }
+    let live0 = alloc_track::live();
+    let rc = unsafe { maybenot_start(good.as_ptr(), s.pf, 0.0, &mut out) } as u32;
+    if rc != 0 {
+        return Ok(());
+    }
+    let this = unsafe { out.assume_init() };
+    let during = alloc_track::live();
+    for b in &batches {
+        unsafe {
+            maybenot_on_events(this, b.as_ptr(), b.len(), buf.as_mut_ptr(), &mut count);
+        }
+    }
+    unsafe { maybenot_stop(this) };
+    let live1 = alloc_track::live();
+    if live1 != live0 {
+        return Err((
+            "C20/start-stop-leak".into(),
+            format!("{live0} bytes live before maybenot_start, {during} while running, {live1} after maybenot_stop"),
+        ));
+    }
+    let rc = unsafe { maybenot_start(bad.as_ptr(), 0.0, 0.0, &mut out) } as u32;
+    let live2 = alloc_track::live();
+    if rc == 0 {
+        unsafe { maybenot_stop(out.assume_init()) };
+    } else if live2 != live0 {
+        return Err(("C20/failed-start-leak".into(), format!("{live0} bytes live before a failing maybenot_start, {live2} after it")));
+    }
+    let rc = unsafe { maybenot_start(good.as_ptr(), f64::NAN, 0.0, &mut out) } as u32;
+    let live3 = alloc_track::live();
+    if rc == 0 {
+        unsafe { maybenot_stop(out.assume_init()) };
+    } else if live3 != live0 {
+        return Err(("C20/failed-start-leak".into(), format!("{live0} bytes live before a maybenot_start with an invalid fraction, {live3} after it")));
+    }
+    Ok(())
+}
+
+/// One fault at a time: every argument error must be answered with its code, without crashing.
+pub fn fault_injection(r: &mut Xo, s: &Session, st: &mut FfiStats) -> Result<(), (String, String)> {
+    let good = CString::new(s.strings.clone()).unwrap();
+    let mut out: MaybeUninit<*mut MaybenotFramework> = MaybeUninit::uninit();
+    let expect = |what: &str, rc: u32, want: u32| -> Result<(), (String, String)> {
+        if rc != want {
+            return Err(("C20/error-code".into(), format!("{what}: returned {rc}, expected {want}")));
+        }
+        Ok(())
+    };
+    match r.below(7) {
+        0 => {
+            let rc = unsafe { maybenot_start(good.as_ptr(), 0.0, 0.0, std::ptr::null_mut()) } as u32;
+            st.error_codes[rc.min(4) as usize] += 1;
+            expect("null out pointer", rc, 4)?;
+        }
+        1 => {
+            let bad = CString::new(vec![b'0', b'2', 0xff, 0xfe, b'A']).unwrap();
+            let rc = unsafe { maybenot_start(bad.as_ptr(), 0.0, 0.0, &mut out) } as u32;
+            st.error_codes[rc.min(4) as usize] += 1;
+            expect("non-UTF-8 machine string", rc, 1)?;
+        }
+        2 => {
+            let mut txt = s.strings.clone();
+            txt.push_str(*r.pick(&["\n02garbage", "\nxx", "\n02", "\n\n"]));
+            let rust_ok = txt.lines().all(|l| Machine::from_str(l).is_ok());
+            let bad = CString::new(txt).unwrap();
+            let rc = unsafe { maybenot_start(bad.as_ptr(), 0.0, 0.0, &mut out) } as u32;
+            st.error_codes[rc.min(4) as usize] += 1;
+            if rust_ok {
+                expect("machine strings the Rust API accepts", rc, 0)?;
+                unsafe { maybenot_stop(out.assume_init()) };
+            } else {
+                expect("invalid machine string", rc, 2)?;
+            }
+        }
+        3 => {
+            let f = *r.pick(&[f64::NAN, -0.1, 1.1, f64::INFINITY, -1.0e-300, 1.0 + f64::EPSILON]);
+            let (pf, bf) = if r.chance(1, 2) { (f, 0.0) } else { (0.0, f) };
+            let rc = unsafe { maybenot_start(good.as_ptr(), pf, bf, &mut out) } as u32;
+            st.error_codes[rc.min(4) as usize] += 1;
+            expect("invalid fraction", rc, 3)?;
+        }
+        _ => {
+            // null pointers in on_events
+            let rc = unsafe { maybenot_start(good.as_ptr(), 0.0, 0.0, &mut out) } as u32;
+            if rc != 0 {
+                return expect("valid start", rc, 0);
+            }
+            let this = unsafe { out.assume_init() };
+            let n = s.machines.len();
+            let ev = [MaybenotEvent { event_type: MaybenotEventType::NormalSent, machine: 0 }];
+            let mut buf: Vec<MaybeUninit<MaybenotAction>> = (0..n.max(1)).map(|_| MaybeUninit::uninit()).collect();
+            let mut count = 0usize;
+            let which = r.below(4);
+            let rc = unsafe {
+                match which {
+                    0 => maybenot_on_events(std::ptr::null_mut(), ev.as_ptr(), 1, buf.as_mut_ptr(), &mut count),
+                    1 => maybenot_on_events(this, std::ptr::null(), 1, buf.as_mut_ptr(), &mut count),
+                    2 => maybenot_on_events(this, ev.as_ptr(), 1, std::ptr::null_mut(), &mut count),
+                    _ => maybenot_on_events(this, ev.as_ptr(), 1, buf.as_mut_ptr(), std::ptr::null_mut()),
+                }
+            } as u32;
+            st.error_codes[rc.min(4) as usize] += 1;
+            let r2 = expect(["null instance", "null events", "null actions", "null count"][which as usize], rc, 4);
+            let nm0 = unsafe { maybenot_num_machines(std::ptr::null_mut()) };
+            unsafe { maybenot_stop(this) };
+            r2?;
+            if nm0 != 0 {
+                return Err(("C20/error-code".into(), format!("maybenot_num_machines(NULL) = {nm0}")));
+            }
+        }
+    }
+    Ok(())
+}
+
+fn witness(s: &Session) -> Value {
+    json!({"machines": s.strings, "max_padding_frac": s.pf,
+           "batches": s.batches.iter().take(40).map(|b| crate::gen::fmt_events(b)).collect::<Vec<_>>()})
+}
+
+impl Prop for C20 {
+    fn cases(&self, tier: Tier) -> u64 {
+        match tier {
+            Tier::Quick => 60_000,
+            Tier::Thorough => 4_000_000,
+        }
+    }
+
+    fn run_case(&mut self, cx: &CaseCx, out: &mut Out) {
+        let mut r = xo(cx.seed);
+        let s = gen_session(&mut r, 40);
+        let mut st = FfiStats::default();
+        out.evaluations += 1;
+        let res = differential(&s, &mut st).and_then(|_| fault_injection(&mut r, &s, &mut st)).and_then(|_| leak_probe(&s));
+        out.bump("start_stop_allocation_balances_checked");
+        out.add("batches_compared", st.batches);
+        out.add("actions_compared_field_by_field", st.actions);
+        out.add("batches_with_unknown_machine_ids", st.unknown_id_batches);
+        for (k, name) in ["actions_cancel", "actions_padding", "actions_blocking", "actions_timer"].iter().enumerate() {
+            out.add(name, st.kinds[k]);
+        }
+        for (k, name) in ["result_ok", "result_not_utf8", "result_invalid_machine_string", "result_start_framework", "result_null_pointer"].iter().enumerate() {
+            out.add(name, st.error_codes[k]);
+        }
+        for c in &st.flag_combos {
+            out.max(&format!("seen_kind{}_bypass{}_replace{}_timer{}", c.0, c.1 as u8, c.2 as u8, c.3), 1);
+        }
+        match res {
+            Err((sig, msg)) => out.violation(sig, msg, witness(&s)),
+            Ok(()) => {
+                if st.actions > 0 {
+                    out.nontrivial(hash_of(&(s.strings.clone(), s.batches.iter().map(|b| crate::gen::fmt_events(b)).collect::<Vec<_>>())));
+                }
+                out.sample(|| witness(&s));
+            }
+        }
+    }
+}
+
+/// Entry point for the runs under Miri / AddressSanitizer / valgrind: the same differential and
+/// fault-injection workload, no panic hook, a mismatch aborts the process with a message.
+pub fn sanitizer_main(mode: &str, seed: u64, cases: u64, shard: u64) {
+    let mut st = FfiStats::default();
+    let max_batches = if mode == "c20-miri" { 6 } else { 40 };
+    for k in 0..cases {
+        let mut r = xo(crate::util::case_seed(seed, mode, shard, k));
+        let s = gen_session(&mut r, max_batches);
+        if let Err((sig, msg)) = differential(&s, &mut st).and_then(|_| fault_injection(&mut r, &s, &mut st)) {
+            println!("MISMATCH {sig} {msg}");
+            println!("WITNESS {}", witness(&s));
+            std::process::exit(1);
+        }
+    }
+    println!(
+        "SANITIZER-RUN-OK mode={mode} sessions={cases} batches={} actions={} codes={:?} flag_combos={}",
+        st.batches,
+        st.actions,
+        st.error_codes,
+        st.flag_combos.len()
+    );
+    let _ = r_unused(seed);
+}
+
+fn r_unused(x: u64) -> u64 {
+    let mut r = xo(x);
+    r.next_u64()
+}
+
+/// Writes the script replayed by the C client (cclient/c20.c): sessions with the actions the Rust
+/// framework returns for every batch.
+pub fn write_script(seed: u64, cases: u64, path: &str) {
+    use std::fmt::Write as _;
+    let mut txt = String::new();
+    for k in 0..cases {
+        let mut r = xo(crate::util::case_seed(seed, "c20-script", 0, k));
+        let s = gen_session(&mut r, 30);
+        // some sessions start with an invalid fraction
+        let (pf, bf) = if r.chance(1, 12) { (*r.pick(&[-0.25, 1.25, f64::NAN]), 0.0) } else { (s.pf, 0.0) };
+        let reference = Framework::new(s.machines.clone(), pf, bf, Instant::now(), ScriptRng::fair(7));
+        let rc = match &reference {
+            Ok(_) => 0,
+            Err(maybenot::Error::Machine(_)) => 2,
+            Err(_) => 3,
+        };
+        writeln!(txt, "S {} {} {} {}", s.machines.len(), hexf(pf), hexf(bf), rc).unwrap();
+        for m in &s.machines {
+            writeln!(txt, "M {}", m.serialize()).unwrap();
+        }
+        if let Ok(mut fw) = reference {
+            for b in &s.batches {
+                let want: Vec<Flat> = fw.trigger_events(b, Instant::now()).map(flat_rust).collect();
+                writeln!(txt, "B {} {}", b.len(), want.len()).unwrap();
+                for e in b {
+                    let (t, m) = ev_type(e);
+                    writeln!(txt, "E {} {}", t as u32, m).unwrap();
+                }
+                for a in want {
+                    writeln!(txt, "A {} {} {} {} {} {} {} {} {}", a.0, a.1, a.2 as u8, a.3 as u8, a.4, a.5, a.6, a.7, a.8).unwrap();
+                }
+            }
+        }
+        writeln!(txt, "X").unwrap();
+    }
+    std::fs::write(path, txt).expect("write script");
+    println!("SCRIPT-WRITTEN sessions={cases} path={path}");
+}
+
+/// C99 hexadecimal floating point literal (exact)
+fn hexf(x: f64) -> String {
+    if x.is_nan() {
+        return "nan".into();
+    }
+    if x.is_infinite() {
+        return if x > 0.0 { "inf".into() } else { "-inf".into() };
+    }
+    if x == 0.0 {
+        return if x.is_sign_negative() { "-0x0p+0".into() } else { "0x0p+0".into() };
+    }
+    let bits = x.to_bits();
+    let sign = if bits >> 63 == 1 { "-" } else { "" };
+    let exp = ((bits >> 52) & 0x7ff) as i64;
+    let frac = bits & ((1u64 << 52) - 1);
+    if exp == 0 {
+        format!("{sign}0x0.{frac:013x}p-1022")
+    } else {
+        format!("{sign}0x1.{frac:013x}p{:+}", exp - 1023)
+    }
+}
